@@ -181,6 +181,56 @@ example : vmStep ⟨5, 1023⟩ .call = .recovered "index out of range (frames)" 
 example : vmRun Vm.init (List.replicate 20 .push ++ List.replicate 21 .pop) = .recovered "index out of range (stack)" := by decide
 example : vmRun Vm.init [.pop] = .recovered "index out of range (stack)" := by decide
 
+/-! ## Recover scopes: a Go panic on any goroutine a script can start stays an error -/
+
+/-- recover_scopes_contain: for EVERY set of recovering functions that includes the three
+    required ones (`runCodeInternal`, `Call`, `object.NewThread`), EVERY evaluation — entered
+    through Run/RunCode or Call, with any main body and any number of thread bodies, each of
+    which may raise a Go panic — leaves the process alive: each panic becomes the error of
+    its own entry.  Quantifies over all scope lists, entries and bodies; the tie
+    `recover_scopes_present` instantiates `scopes` with what the extractor reads from the
+    code (`code_scopes_contain_panics`). -/
+theorem recover_scopes_contain (scopes : List String)
+    (h : requiredRecovers.all (scopes.contains ·) = true) (x : Exec) :
+    x.killed scopes = false :=
+  exec_not_killed scopes h x
+
+/-- … in particular for every VM operation sequence run on a thread's fresh VM: either it
+    stays inside the arrays, or the thread's result is the error `panic: index out of
+    range …`; the process is never killed. -/
+theorem thread_vm_panics_are_errors (ops : List VmOp) :
+    enterImpl .thread (Body.ofVm (vmRun Vm.init ops)) = .value ∨
+    ∃ w, enterImpl .thread (Body.ofVm (vmRun Vm.init ops)) = .error ("panic: " ++ w) := by
+  cases h : vmRun Vm.init ops with
+  | ok s => exact Or.inl rfl
+  | recovered w => exact Or.inr ⟨w, by simp [Body.ofVm, enterImpl, enter, requiredRecovers, Entry.scope]⟩
+
+/-- every one of the three scopes is needed: without a scope, a panic under the entry it
+    guards kills the process (so the hypothesis of `recover_scopes_contain` cannot be
+    weakened, and a `recover()` that no longer recovers — e.g. one moved out of the deferred
+    closure into a helper — is a violation the harness must be able to exhibit). -/
+theorem each_scope_needed (e : Entry) (w : String) :
+    enter (requiredRecovers.filter (· != e.scope)) e (.panics w) = .killed w := by
+  have h : (requiredRecovers.filter (· != e.scope)).contains e.scope = false := by
+    cases e <;> decide
+  show (if (requiredRecovers.filter (· != e.scope)).contains e.scope = true then
+    ProcRes.error ("panic: " ++ w) else ProcRes.killed w) = ProcRes.killed w
+  rw [h]; rfl
+
+/-- the concrete shape of such a failure: main code that returns and one spawned thread in
+    which a Go panic is raised (the frame array overrun by unbounded recursion); only
+    `object.NewThread`'s scope is missing -/
+example : (Exec.mk .run .returns [.panics "index out of range (frames)"]).killed
+    ["vm.VirtualMachine.Call", "vm.VirtualMachine.runCodeInternal"] = true := by decide
+/-- the same evaluation with all three scopes -/
+example : (Exec.mk .run .returns [.panics "index out of range (frames)"]).killed requiredRecovers = false := by decide
+-- 1024 nested calls on a thread's fresh VM are such a body
+set_option maxRecDepth 20000 in
+example : Body.ofVm (vmRun Vm.init (List.replicate 1024 .call)) = .panics "index out of range (frames)" := by decide
+example : enterImpl .thread (.panics "x") = .error "panic: x" := by decide
+example : enterImpl .run .returns = .value := by decide
+example : requiredRecovers.all (requiredRecovers.contains ·) = true := by decide
+
 /-! ## Inspect terminates on every heap; Equals does not -/
 
 /-- With `u` containers not yet being inspected, recursion depth `u + 1` suffices: the
